@@ -161,4 +161,36 @@ Proof.
   apply (G cs []); auto. cbn. lia.
 Qed.
 
+(* every position 0..size resolves *)
+Theorem resolve_in_total : forall n po start,
+  is_elem n -> po <= fsize (node_content n) -> exists r, resolve_in s n po start = Ok r.
+Proof.
+  induction n as [t m|ty a m cs IH] using node_ind2; intros po start Hel Hpo.
+  { destruct Hel as (? & ? & ? & ? & Hx). discriminate. }
+  cbn [node_content] in Hpo. rewrite resolve_in_unfold. destruct (po =? 0) eqn:Ez; [eauto|].
+  apply Nat.eqb_neq in Ez. set (n := Elem ty a m cs).
+  assert (G : forall l i cur, (forall c, In c l -> In c cs) -> cur < po -> po <= cur + fsize l ->
+              exists r, rwalk s n po start l i cur = Ok r).
+  { induction l as [|c r IHl]; intros i cur Hin Hcur Hle; [cbn [frag_size] in Hle; lia|].
+    cbn [rwalk]. cbn [frag_size] in Hle. cbv zeta.
+    destruct (cur + nsize c =? po) eqn:E1; [eauto|]. apply Nat.eqb_neq in E1.
+    destruct (po <? cur + nsize c) eqn:E2.
+    - apply Nat.ltb_lt in E2. destruct c as [t0 m0|ty1 a1 m1 cs1]; [eauto|].
+      assert (Hnl : is_leaf_ty s ty1 = false).
+      { pose proof (node_size_elem s ty1 a1 m1 cs1) as Hs. destruct (is_leaf_ty s ty1); [|reflexivity]. lia. }
+      pose proof (node_size_elem s ty1 a1 m1 cs1) as Hs. rewrite Hnl in Hs.
+      destruct (IH _ (Hin _ (or_introl eq_refl)) (po - cur - 1) (start + cur + 1)) as ([p1 q1] & Hr);
+        [unfold is_elem; eauto|cbn [node_content]; lia|].
+      rewrite Hr. cbn [bind]. eauto.
+    - apply Nat.ltb_ge in E2. apply IHl; [intros c0 Hc0; apply Hin; right; exact Hc0|lia|lia]. }
+  apply (G cs 0 0); auto; lia.
+Qed.
+
+Theorem resolve_total doc pos :
+  is_elem doc -> pos <= fsize (node_content doc) -> exists r, resolve s doc pos = Ok r.
+Proof.
+  intros Hel Hpos. unfold resolve. replace (fsize (node_content doc) <? pos) with false by (symmetry; apply Nat.ltb_ge; lia).
+  destruct (resolve_in_total doc pos 0 Hel Hpos) as ([p q] & Hr). rewrite Hr. cbn [bind]. eauto.
+Qed.
+
 End WithSchema.
